@@ -334,9 +334,15 @@ func readCompressedJSONLinesFromReader[T any](reader io.Reader, codec Compressio
 		var record T
 		decoder := json.NewDecoder(bytes.NewReader(line))
 		decoder.DisallowUnknownFields()
+		// Decode numbers exactly: the default float64 decoding silently rounds integer property values
+		// beyond 2^53, so a dump -> load round trip would change them.
+		decoder.UseNumber()
 		if err := decoder.Decode(&record); err != nil {
 			decodeErr = fmt.Errorf("decode JSONL record %d: %w", count+1, err)
 			break
+		}
+		if normalizer, ok := any(&record).(interface{ normalizeJSONNumbers() }); ok {
+			normalizer.normalizeJSONNumbers()
 		}
 		if err := decoder.Decode(&struct{}{}); err != io.EOF {
 			if err == nil {
